@@ -72,3 +72,10 @@ KF_C12_CAPTURED = ('glue.viewers.histogram.layer_artist.HistogramLayerArtist', '
 def KF_C12_patch_captures_live_classes(div):
     """state_path_patches.txt redirects four class paths that this package still defines as concrete, serialisable classes."""
     return div.kind == 'patch_capture' and div.behaviour.get('key') in KF_C12_CAPTURED
+
+
+def KF_C19_empty_fits_table(div):
+    """An empty subset exported as a FITS table loads back as a dataset without components."""
+    b = div.behaviour
+    return (b.get('spec') == 'Export' and b['cfg']['fmt'] == 'fits_table' and b['cfg']['sub'] == 'empty'
+            and div.component == 'components' and div.actual == [])
